@@ -2,7 +2,7 @@
 from .common import *
 from .knuth import addback_pairs, knuth_events
 
-EXTRA_QUICK = ["8x4", "16x4", "32x4", "64x4", "64x5"]  # n >= 4: add-back at quotient positions j >= 1
+EXTRA_QUICK = ["8x4", "16x4", "32x4", "64x4"]  # n >= 4: add-back at quotient positions j >= 1
 
 BIN = ["checked_div", "checked_rem", "checked_div_euclid", "checked_rem_euclid",
        "overflowing_div", "overflowing_rem", "overflowing_div_euclid", "overflowing_rem_euclid",
